@@ -3,6 +3,27 @@
 PENDING_REASON = "not claimed in this commit: the model, theorems and correspondence stream for it are not built yet (design in DESIGN.md §6); no other technique is substituted"
 NOT_APPLICABLE = {}
 
+def _chain_filter(clauses=None, completeness=False):
+    """Attribute a disagreement of the shared `chain` stream to a property by its direction."""
+    def f(pid, d):
+        cl = d.get("class", "")
+        if "harness/model error" in cl:
+            return True
+        if cl == "chain.validat":
+            return pid == "C04"
+        if completeness:
+            return "model-allows-go-denies" in cl
+        if "go-allows-model-denies:" not in cl:
+            return False
+        failing = set(cl.split("go-allows-model-denies:")[1].split(","))
+        return bool(failing & set(clauses))
+    return f
+
+
+_CHAIN_NOTE = ("Trusted: Lean kernel; Model/Chain.lean renders invocation.go/proof.go/delegation.go by hand and is tied to the code by the differential `chain` stream "
+               "(real signed tokens, verdicts compared in the direction this property needs), not by proof; the system clock moving less than an hour during a call; "
+               "Ed25519 signatures and go-ipld-prime are used to build the tokens but are not part of this property.")
+
 PROPS = {
     "C15": dict(
         props_module="Ucan.Props.C15",
@@ -35,5 +56,45 @@ PROPS = {
         level_text="C11_classical (every selector resolves ⇒ Match = conjunction of classical truth values; like = glob language; ordering only between two ints or two finite floats), C11_perm_operands / C11_perm_and / C11_perm_or / C11_perm_elements (order independence for any nesting), C11_and_monotone / C11_all_monotone, C11_full_implies_partial, C11_append, C11_required_missing / C11_optional_missing — all for every policy and every IPLD value. Go's Match/PartialMatch are compared with the model on every depth-≤2 statement family × 16 data trees (with the negated statement, to observe the four-valued result) and on random depth-≤4 policies in original and permuted form.",
         level_note="Trusted: Lean kernel; Model/Policy.lean renders match.go by hand, evaluating children eagerly (sound because children are pure once integers fit int64 — C09); DeepEqual and float comparison are modelled on IEEE bit patterns in Model/Node.lean; checked differentially, not proved.",
         assumptions=["integers in policies and data fit int64 (otherwise must.Int/DeepEqual panic: C09)", "or [] is true, as the UCAN specification and the in-tree tests require"],
+    ),
+    "C01": dict(
+        props_module="Ucan.Props.C01",
+        streams=["chain"],
+        filter=_chain_filter(clauses=["principal", "load"]),
+        technique="Lean 4 proof by induction over the chain that the running-issuer loop + root test accept exactly the declarative principal/command specification; soundness corollary and audience irrelevance; model tied to the code by exhaustive short-chain differential runs with real tokens (direction: Go allows ⇒ model allows)",
+        level_text="verifyProofs_ok_iff (loop ⇔ PrincipalSpec ∧ CommandSpec for every chain length and principal assignment), C01_sound (allowed ⇒ non-empty, all proofs loaded in order, first link issued to the invoker, issuer/audience linked at every position, last link rooted in its own subject, every link names the invocation's subject), C01_no_proof, C01_missing, C01_audience_irrelevant. Go's ExecutionAllowed is compared with the model on every chain of ≤ 2 (3 thorough) links over all (iss, aud, sub) assignments × all invocations, and on random chains of ≤ 8 (40) links with deviations, missing, duplicated, truncated and permuted proofs.",
+        level_note=_CHAIN_NOTE,
+    ),
+    "C02": dict(
+        props_module="Ucan.Props.C02",
+        streams=["chain"],
+        filter=_chain_filter(clauses=["command"]),
+        technique="Lean 4 proof: allowed ⇒ CommandSpec (first link covers the invoked command, every link covered by the next towards the root), with C15 giving segment-prefix and transitivity; tied by the command-lattice differential run (direction: Go allows ⇒ model allows)",
+        level_text="C02_sound, C02_no_widening (segment prefix at every position, via C15_covers_iff), C02_every_link_covers_invocation (by C15_trans). Go is compared with the model on conforming chains of 1–3 links under every assignment of a 6-command lattice (top, parent, child, sibling, shared textual prefix /foo vs /foobar, /fo) to the invocation and each link, and on random longer chains.",
+        level_note=_CHAIN_NOTE,
+    ),
+    "C03": dict(
+        props_module="Ucan.Props.C03",
+        streams=["chain"],
+        filter=_chain_filter(clauses=["policy", "hook"]),
+        technique="Lean 4 proof: allowed ⇒ every statement of every link passes (Match over the concatenation = conjunction, C11_append), anti-monotone in links and statements, hook result is what is checked; tied by differential runs distributing statements over every link (direction: Go allows ⇒ model allows)",
+        level_text="C03_sound, C03_antitone_links, C03_antitone_statements, C03_hook, C03_hook_error for every chain, policy distribution and argument value. Go is compared with the model on conforming chains of 1–3 links with each of 7 policies at each link × 4 argument maps, with and without replacing/failing argument hooks, and on random chains.",
+        level_note=_CHAIN_NOTE,
+    ),
+    "C04": dict(
+        props_module="Ucan.Props.C04",
+        streams=["chain"],
+        filter=_chain_filter(clauses=["time"]),
+        technique="Lean 4 proof of the validity window for every instant and of allowed ⇒ invocation and every link valid now; tied by IsValidAt probes at bound ± {1 ns, 1 s, 1 h} and by chains with past/future bounds at every position (direction: Go allows ⇒ model allows; IsValidAt: equality away from the exact bound)",
+        level_text="C04_inside / C04_outside (delegations), C04_inv_inside / C04_inv_outside (invocations), absent bound = unbounded, C04_sound (allowed ⇒ invocation valid and every delegation valid at the check time). Go's IsValidAt is compared with the model on both sides of each bound for all present/absent combinations; ExecutionAllowed on every past/future/absent combination of nbf/exp on the invocation and each of 1–2 (3 thorough) links.",
+        level_note=_CHAIN_NOTE + " Wall-clock reads and time.Time's monotonic-clock handling are not modelled; bounds in chain scenarios sit two hours from now.",
+    ),
+    "C05": dict(
+        props_module="Ucan.Props.C05",
+        streams=["chain"],
+        filter=_chain_filter(completeness=True),
+        technique="Lean 4 proof of completeness (all specification clauses ⇒ allowed; exact iff) and of independence from audience/meta/nonce/cause/iat; tied by generated conforming chains in the converse direction (model allows ⇒ Go allows)",
+        level_text="C05_complete, C05_allowed_iff, C05_irrelevant_fields, C05_loadable. Conforming chains are generated (any length ≤ 8/40, repeated principals and self-delegation, attenuating command sequences, satisfiable policies, valid windows) with every irrelevant field varied; every case where the model allows and Go denies is reported.",
+        level_note=_CHAIN_NOTE,
     ),
 }
